@@ -122,6 +122,300 @@ def collect_int_types(tree, acc, cls=None):
         for t in tree[4].values():
             collect_int_types(t, acc, cls)
 
+# ------------------------------------------------------------------ integers as mathematical values (interval theory)
+# Every integer term denotes a mathematical integer (read by the signedness of its type).  Under the conditions already assumed
+# on a path, casts that cannot wrap / saturate and arithmetic that cannot overflow are dropped, so that `(n / 32) as usize` and
+# `(n as usize) >> 5` for a non-negative n, an index computed in i32 or in isize, `t as i32` and `t as isize` for a small integral
+# t, denote one term.  Nothing is dropped without an interval proof from the path's own conditions.
+INF = float("inf")
+INT_ABS = re.compile(r"^core::num::<impl (i8|i16|i32|i64|i128|isize)>::(abs|unsigned_abs)$")
+INT_SIGNQ = re.compile(r"^core::num::<impl (i8|i16|i32|i64|i128|isize)>::(is_negative|is_positive)$")
+ZTAGS = ("zadd", "zsub", "zmul", "zdiv", "zmod", "zabs", "toint")
+
+def ty_range(ty):
+    n_ = vg.INT_BITS[ty]
+    return (-(1 << (n_ - 1)), (1 << (n_ - 1)) - 1) if ty.startswith("i") else (0, (1 << n_) - 1)
+
+def zconst(v):
+    return mk("const", "Z", v)
+
+def zval(c):
+    """mathematical value of an integer constant node, None for anything else"""
+    if tag(c) == "const":
+        if c[1] == "Z":
+            return c[2]
+        if c[1] in vg.INT_BITS:
+            return vg.to_signed(c[1], c[2])
+    return None
+
+def int_type_of(env, n):
+    t = tag(n)
+    if t == "i" and n[2] in vg.INT_BITS:
+        return n[2]
+    if t == "cast" and n[3] in vg.INT_BITS:
+        return n[3]
+    if t == "const" and n[1] in vg.INT_BITS:
+        return n[1]
+    if t == "call":
+        m = INT_ABS.match(n[1])
+        if m:
+            return m.group(1) if m.group(2) == "abs" else "u" + m.group(1)[1:]
+    return env.int_ty.get(n)
+
+def zbounds(env):
+    """bounds (lo, hi) of integer terms implied by the path's conditions, pushed down to the terms they are built from"""
+    cached = getattr(env, "_zb", None)
+    if cached is not None and cached[0] == len(env.val):
+        return cached[1]
+    b = {}
+    def put(n, lo, hi):
+        if zval(n) is not None:
+            return
+        o = b.get(n, (-INF, INF))
+        b[n] = (max(o[0], lo), min(o[1], hi))
+    def refine(n, lo, hi, depth=0):
+        if depth > 12 or (lo == -INF and hi == INF):
+            return
+        put(n, lo, hi)
+        t = tag(n)
+        if t in ("zadd",) or (t == "i" and n[1] in ("add", "sub") and n[2] in vg.INT_BITS and len(n) == 5):
+            x, y = (n[1], n[2]) if t == "zadd" else (n[3], n[4])
+            sub = (t == "i" and n[1] == "sub")
+            cy, cx = zval(y), zval(x)
+            if cy is not None:
+                d = -cy if not sub else cy
+                refine(x, lo + d, hi + d, depth + 1)
+            elif cx is not None and not sub:
+                refine(y, lo - cx, hi - cx, depth + 1)
+            elif cx is not None and sub:
+                refine(y, cx - hi, cx - lo, depth + 1)      # c - y in [lo, hi]
+        elif t == "zabs" or (t == "call" and len(n) == 3 and INT_ABS.match(n[1])):
+            x = n[1] if t == "zabs" else n[2]
+            if hi >= 0:
+                refine(x, -hi, hi, depth + 1)
+        elif t == "cast" and n[1] == "IntToInt" and n[2] in vg.INT_BITS and n[3] in vg.INT_BITS:
+            slo, shi = ty_range(n[2]); tlo, thi = ty_range(n[3])
+            if tlo <= slo and shi <= thi:
+                refine(n[4], lo, hi, depth + 1)       # widening: the value is the operand's
+        elif t == "cast" and n[1] == "FloatToInt" and n[3] in vg.INT_BITS:
+            tlo, thi = ty_range(n[3])
+            put(mk("toint", n[4]), lo if lo > tlo else -INF, hi if hi < thi else INF)     # the cast saturates only at the ends
+        elif t == "zdiv":
+            c = zval(n[2])
+            if c and c > 0:
+                refine(n[1], lo * c if lo != -INF else -INF, hi * c + c - 1 if hi != INF else INF, depth + 1)
+    for var, r in list(env.val.items()):
+        if var[0] == "rel" and (var[3] in vg.INT_BITS or var[3] == "Z") and r in REL3:
+            for x, k, rr in ((var[1], var[2], r), (var[2], var[1], FLIP[r])):
+                kv = zval(k)
+                if kv is not None and zval(x) is None:
+                    if rr == "lt":
+                        refine(x, -INF, kv - 1)
+                    elif rr == "gt":
+                        refine(x, kv + 1, INF)
+                    else:
+                        refine(x, kv, kv)
+        elif var[0] == "bool" and tag(var[1]) == "call" and len(var[1]) == 3 and r in (True, False):
+            m = INT_SIGNQ.match(var[1][1])
+            if m:
+                neg = (m.group(2) == "is_negative")
+                if neg:
+                    refine(var[1][2], *((-INF, -1) if r else (0, INF)))
+                else:
+                    refine(var[1][2], *((1, INF) if r else (-INF, 0)))
+    env._zb = (len(env.val), b)
+    return b
+
+def zinterval(env, n, depth=0):
+    """interval of the mathematical value of an integer term (raw or canonical) under env"""
+    v = zval(n)
+    if v is not None:
+        return (v, v)
+    lo, hi = zbounds(env).get(n, (-INF, INF))
+    ty = int_type_of(env, n)
+    if ty is not None:
+        tlo, thi = ty_range(ty)
+        lo, hi = max(lo, tlo), min(hi, thi)
+    if depth > 12:
+        return (lo, hi)
+    t = tag(n)
+    s = None
+    if t == "toint":
+        pass
+    elif t in ("zadd", "zsub", "zmul"):
+        a = zinterval(env, n[1], depth + 1); c = zinterval(env, n[2], depth + 1)
+        if t == "zadd":
+            s = (a[0] + c[0], a[1] + c[1])
+        elif t == "zsub":
+            s = (a[0] - c[1], a[1] - c[0])
+        elif -INF not in a + c and INF not in a + c:
+            ps = [x * y for x in a for y in c]
+            s = (min(ps), max(ps))
+    elif t == "zdiv":
+        a = zinterval(env, n[1], depth + 1); c = zval(n[2])
+        if c and c > 0 and a[0] >= 0:
+            s = (a[0] // c, a[1] // c if a[1] != INF else INF)
+    elif t == "zmod":
+        a = zinterval(env, n[1], depth + 1); c = zval(n[2])
+        if c and c > 0 and a[0] >= 0:
+            s = (0, min(a[1], c - 1))
+    elif t == "zabs":
+        a = zinterval(env, n[1], depth + 1)
+        s = (0 if a[0] <= 0 <= a[1] else min(abs(a[0]), abs(a[1])), max(abs(a[0]), abs(a[1])))
+    elif t == "cast" and n[1] == "IntToInt" and n[3] in vg.INT_BITS:
+        a = zinterval(env, n[4], depth + 1)
+        if ty_range(n[3])[0] <= a[0] and a[1] <= ty_range(n[3])[1]:
+            s = a
+    elif t == "cast" and n[1] == "FloatToInt" and n[3] in vg.INT_BITS:
+        a = zbounds(env).get(mk("toint", n[4]), (-INF, INF))
+        s = a         # saturation keeps the value inside the type's range, applied above
+        s = (max(a[0], ty_range(n[3])[0]), min(a[1], ty_range(n[3])[1]))
+    if s is not None:
+        lo, hi = max(lo, s[0]), min(hi, s[1])
+    return (lo, hi)
+
+def _within(iv, ty):
+    tlo, thi = ty_range(ty)
+    return tlo <= iv[0] and iv[1] <= thi
+
+def zc_(n):
+    v = zval(n)
+    return n if v is None else zconst(v)
+
+def zstep(env, n):
+    """canonical mathematical form of an integer node whose operands are already canonical (the node itself when nothing can be
+    proved, or when it is not an integer operation)"""
+    t = tag(n)
+    if t == "cast" and n[3] in vg.INT_BITS:
+        if n[1] == "IntToInt" and (n[2] in vg.INT_BITS):
+            if _within(zinterval(env, n[4]), n[3]):
+                return n[4]
+        elif n[1] == "FloatToInt":
+            a = mk("toint", n[4])
+            if _within(zbounds(env).get(a, (-INF, INF)), n[3]):
+                return a
+        return n
+    if t == "i" and n[2] in vg.INT_BITS and len(n) == 5:
+        op, ty, x, y = n[1], n[2], n[3], n[4]
+        cx, cy = zval(x), zval(y)
+        if cx is not None and cy is not None:
+            return n
+        x, y = zc_(x), zc_(y)
+        ix, iy = zinterval(env, x), zinterval(env, y)
+        if op in ("add", "sub"):
+            r = (ix[0] + iy[0], ix[1] + iy[1]) if op == "add" else (ix[0] - iy[1], ix[1] - iy[0])
+            if not _within(r, ty):
+                return n
+            if op == "add" and cx is not None:
+                x, y, cx, cy = y, x, cy, cx
+            if cy is not None:
+                d = cy if op == "add" else -cy
+                if tag(x) == "zadd" and zval(x[2]) is not None:
+                    d += zval(x[2]); x = x[1]
+                return x if d == 0 else mk("zadd", x, zconst(d))
+            if op == "add":
+                if norm.digest(x) > norm.digest(y):
+                    x, y = y, x
+                return mk("zadd", zc_(x), zc_(y))
+            return mk("zsub", zc_(x), zc_(y))
+        if op == "mul" and -INF not in ix + iy and INF not in ix + iy:
+            ps = [a * b for a in ix for b in iy]
+            if _within((min(ps), max(ps)), ty):
+                if cx is not None:
+                    x, y = y, x
+                elif cy is None and norm.digest(x) > norm.digest(y):
+                    x, y = y, x
+                return mk("zmul", zc_(x), zc_(y))
+            return n
+        if op in ("div", "rem") and cy is not None and cy > 0 and ix[0] >= 0:
+            return mk("zdiv" if op == "div" else "zmod", x, zconst(cy))
+        if op == "shr" and cy is not None and 0 <= cy < vg.INT_BITS[ty] and ix[0] >= 0:
+            return mk("zdiv", x, zconst(1 << cy))
+        if op == "bitand" and ix[0] >= 0:
+            for m_, o_ in ((cy, x), (cx, y)):
+                if m_ is not None and m_ >= 0 and (m_ & (m_ + 1)) == 0:
+                    return mk("zmod", o_, zconst(m_ + 1))
+        return n
+    if t == "call" and len(n) == 3:
+        m = INT_ABS.match(n[1])
+        if m:
+            ix = zinterval(env, n[2])
+            if m.group(2) == "unsigned_abs" or ix[0] > ty_range(m.group(1))[0]:
+                return mk("zabs", n[2])
+    return n
+
+_HAS_INT = {}
+def has_int(t):
+    """does the term contain integer arithmetic or casts to integers at all (most leaves do not)"""
+    r = _HAS_INT.get(t)
+    if r is None:
+        r = any((tag(x) == "i" and x[2] in vg.INT_BITS) or (tag(x) == "cast" and x[3] in vg.INT_BITS) or (tag(x) == "call" and len(x) == 3 and INT_ABS.match(x[1])) for x in all_nodes(t))
+        _HAS_INT[t] = r
+    return r
+
+def zcanon(env, t):
+    from .terms import rebuild
+    if type(t) is not Node or not has_int(t):
+        return t
+    def f(kids):
+        # commutative nodes keep their operands in digest order (norm.py), which the rewriting below them may have changed
+        tg = kids[0]
+        if (tg == "call" and len(kids) == 4 and kids[1].startswith("opc:")) or (tg == "f" and len(kids) == 4 and kids[1] in ("add", "mul")) \
+                or (tg == "eft_err" and len(kids) == 4 and kids[1] in ("add", "mul")):
+            if norm.digest(kids[2]) > norm.digest(kids[3]):
+                kids = (kids[0], kids[1], kids[3], kids[2])
+        elif tg == "f" and len(kids) == 5 and kids[1] in ("fma", "fma-") and norm.digest(kids[2]) > norm.digest(kids[3]):
+            kids = (kids[0], kids[1], kids[3], kids[2], kids[4])
+        return zstep(env, mk(*kids))
+    return rebuild(t, f, {})
+
+def zcanon_leaf(env, l):
+    if l[0] != "leaf":
+        return l
+    v = zcanon(env, l[1]); eff = tuple((i, zcanon(env, x)) for i, x in l[2])
+    if v is l[1] and all(x is y[1] for x, y in zip((e[1] for e in eff), l[2])):
+        return l
+    return ("leaf", v, eff)
+
+def z_rel(env, a, b, kind, domain):
+    """the relation of two integer terms decided (or named) through their canonical mathematical forms; None when the forms are
+    the terms themselves (the typed theory applies)"""
+    ca, cb = zval(a), zval(b)
+    if ca is not None and cb is not None:
+        return ("lt" if ca < cb else ("gt" if ca > cb else "eq")) if kind == "Z" else None
+    za = a if ca is not None else zcanon(env, a)
+    zb = b if cb is not None else zcanon(env, b)
+    if (ca is not None or za is a) and (cb is not None or zb is b) and kind != "Z":
+        return None
+    if ca is not None or cb is not None:
+        x, kv, flip = (zb, ca, True) if ca is not None else (za, cb, False)
+        if tag(x) == "zadd" and zval(x[2]) is not None:
+            kv -= zval(x[2]); x = x[1]
+        xv = zval(x)
+        if xv is not None:
+            r = "lt" if xv < kv else ("gt" if xv > kv else "eq")
+            return FLIP[r] if flip else r
+        lo, hi = zinterval(env, x)
+        feas = tuple(r for r in REL3 if (r == "lt" and lo < kv) or (r == "gt" and hi > kv) or (r == "eq" and lo <= kv <= hi))
+        if len(feas) == 1:
+            return FLIP[feas[0]] if flip else feas[0]
+        ty = int_type_of(env, x)
+        if ty is not None and tag(x) not in ZTAGS and vg.in_range(ty, kv) :
+            r = get_rel(env, x, mk("const", ty, vg.from_signed(ty, kv)), ty, REL3)
+            return FLIP[r] if flip else r
+        v = ("rel", x, zconst(kv), "Z")
+        if v not in env.val:
+            raise Undetermined(v, feas or REL3)
+        r = env.val[v]
+        return FLIP[r] if flip else r
+    if za is zb:
+        return "eq"
+    v, sw = rel_var(za, zb, "Z")
+    if v not in env.val:
+        raise Undetermined(v, REL3)
+    r = env.val[v]
+    return FLIP[r] if sw else r
+
 def rel_var(a, b, kind):
     """canonical variable and whether operands were swapped"""
     if norm.digest(a) <= norm.digest(b):
@@ -129,6 +423,10 @@ def rel_var(a, b, kind):
     return ("rel", b, a, kind), True
 
 def get_rel(env, a, b, kind, domain):
+    if kind in vg.INT_BITS or kind == "Z":
+        r_ = z_rel(env, a, b, kind, domain)
+        if r_ is not None:
+            return r_
     if tag(a) == "const" and tag(b) == "const" and kind in ("f64",) + tuple(vg.INT_BITS) + ("bool", "char"):
         return const_rel(a, b, kind)
     if kind == "PartialOrd<TwoFloat,TwoFloat>":
@@ -276,6 +574,8 @@ def feasible_vs_const(env, x, c, kind, domain):
             hi, hi_strict = hi - 1, False
         lo = tlo if lo is None else max(lo, tlo)
         hi = thi if hi is None else min(hi, thi)
+        zl, zh = zinterval(env, x)
+        lo, hi = max(lo, zl), min(hi, zh)
         out = []
         for r in domain:
             if r == "un":
@@ -637,7 +937,10 @@ def equivalent(t1, t2, leaf_eq=default_leaf_eq, budget=200000, assume=None):
         if l1 == ("unreachable",) or l2 == ("unreachable",):
             return None     # rustc proved the arm unreachable (exhaustive match): no such assignment exists
         if not leaf_eq(l1, l2):
-            return Mismatch(env, l1, l2)
+            # integer sub-terms read as mathematical values under the path's conditions (casts / arithmetic that cannot wrap dropped)
+            c1, c2 = zcanon_leaf(env, l1), zcanon_leaf(env, l2)
+            if (c1 is l1 and c2 is l2) or not leaf_eq(c1, c2):
+                return Mismatch(env, l1, l2)
         return None
     return walk(root)
 
